@@ -19,8 +19,11 @@ import (
 	"testing"
 	"time"
 
+	"github.com/vulcand/oxy/v2/buffer"
 	"github.com/vulcand/oxy/v2/cbreaker"
 	"github.com/vulcand/oxy/v2/forward"
+	"github.com/vulcand/oxy/v2/roundrobin"
+	"github.com/vulcand/oxy/v2/stream"
 	"github.com/vulcand/oxy/v2/trace"
 	"github.com/vulcand/oxy/v2/verifharness/sim"
 	"github.com/vulcand/oxy/v2/verifharness/vstat"
@@ -97,7 +100,7 @@ func genResp(t *rapid.T) *respScript {
 	}
 	// the forwarder may sit behind another oxy middleware that wraps the response writer, and
 	// the backend may send informational responses before the final one
-	s.behind = rapid.SampledFrom([]string{"", "", "", "trace", "cbreaker"}).Draw(t, "behind")
+	s.behind = rapid.SampledFrom([]string{"", "", "", "trace", "cbreaker", "stream-verbose", "buffer-verbose", "roundrobin-verbose", "cbreaker-verbose"}).Draw(t, "behind")
 	s.early = rapid.SampledFrom([]int{0, 0, 0, 1, 2}).Draw(t, "earlyHints")
 	if s.status != 204 && s.status != 304 {
 		var n int
@@ -293,9 +296,15 @@ func exchange(fatalf func(string, ...any), s *respScript, method string) {
 	defer cancel()
 	var body io.Reader
 	if method == "POST" {
-		body = strings.NewReader("request-body")
+		body = strings.NewReader("field=request-body&x=1")
 	}
 	req := httptest.NewRequest(method, "http://front.example/p?q=1", body).WithContext(ctx)
+	if method == "POST" {
+		req.Header.Set("Content-Type", "application/x-www-form-urlencoded")
+	}
+	if method == "CONNECT" { // the authority form of a tunnel request is not a URI
+		req.RequestURI = "127.0.0.1:8443"
+	}
 	backendURL := "http://" + addr
 	listenerURL := backendURL
 	if s.retarget {
@@ -308,6 +317,9 @@ func exchange(fatalf func(string, ...any), s *respScript, method string) {
 	} else {
 		req.URL, _ = url.Parse(backendURL)
 	}
+	if s.fault != "" && s.behind == "buffer-verbose" {
+		s.behind = "stream-verbose" // a buffer holds the response back: what the client sees of an aborted exchange is its business (C15/C20)
+	}
 	switch s.behind {
 	case "trace":
 		tr, err := trace.New(h, io.Discard)
@@ -316,6 +328,38 @@ func exchange(fatalf func(string, ...any), s *respScript, method string) {
 			return
 		}
 		h = tr
+	case "stream-verbose":
+		st, err := stream.New(h, stream.Verbose(true), stream.Logger(fmtLogger{}))
+		if err != nil {
+			fatalf("stream.New: %v", err)
+			return
+		}
+		h = st
+	case "buffer-verbose":
+		bf, err := buffer.New(h, buffer.Verbose(true), buffer.Logger(fmtLogger{}))
+		if err != nil {
+			fatalf("buffer.New: %v", err)
+			return
+		}
+		h = bf
+	case "roundrobin-verbose":
+		rr, err := roundrobin.New(h, roundrobin.Verbose(true), roundrobin.Logger(fmtLogger{}))
+		if err != nil {
+			fatalf("roundrobin.New: %v", err)
+			return
+		}
+		if u, err := url.Parse(backendURL); err == nil {
+			_ = rr.UpsertServer(u)
+		}
+		h = rr
+		listenerURL = backendURL // the balancer has pointed the request at the backend before the listener sees it
+	case "cbreaker-verbose":
+		cb, err := cbreaker.New(h, "NetworkErrorRatio() > 2.0", cbreaker.Verbose(true), cbreaker.Logger(fmtLogger{}))
+		if err != nil {
+			fatalf("cbreaker.New: %v", err)
+			return
+		}
+		h = cb
 	case "cbreaker":
 		cb, err := cbreaker.New(h, "NetworkErrorRatio() > 2.0") // never trips
 		if err != nil {
@@ -433,7 +477,10 @@ func record(s *respScript, method, how string) {
 func TestC16_Relay(t *testing.T) {
 	rapid.Check(t, func(t *rapid.T) {
 		s := genResp(t)
-		method := rapid.SampledFrom([]string{"GET", "POST", "GET", "DELETE"}).Draw(t, "method")
+		method := rapid.SampledFrom([]string{"GET", "POST", "GET", "DELETE", "POST", "CONNECT"}).Draw(t, "method")
+		if method == "CONNECT" && s.status < 300 {
+			s.status = rapid.SampledFrom([]int{403, 405, 502}).Draw(t, "connectStatus") // a backend that declines the tunnel
+		}
 		exchange(t.Fatalf, s, method)
 		record(s, method, "relay")
 	})
@@ -596,6 +643,13 @@ func TestC16_RealServer(t *testing.T) {
 		record(s, "GET", "real-server")
 	})
 }
+
+type fmtLogger struct{}
+
+func (fmtLogger) Debug(f string, a ...interface{}) { _ = fmt.Sprintf(f, a...) }
+func (fmtLogger) Info(f string, a ...interface{})  { _ = fmt.Sprintf(f, a...) }
+func (fmtLogger) Warn(f string, a ...interface{})  { _ = fmt.Sprintf(f, a...) }
+func (fmtLogger) Error(f string, a ...interface{}) { _ = fmt.Sprintf(f, a...) }
 
 // resetOvertook: the response is the proxy's own gateway-error page, which is what a backend
 // reset that destroyed (part of) the unread response head must produce.
